@@ -119,7 +119,7 @@ func init() {
 				fn := c.Fn
 				fa := e.FA(fn)
 				call := c.Instr.(ssa.CallInstruction)
-				if argT(fa, call, 4).Name != "false" {
+				if e.sharesDirection(fa, call) != "false" {
 					continue
 				}
 				fk := FuncKey(fn)
@@ -139,7 +139,7 @@ func init() {
 				}
 				// (b) the same amount added to another validator
 				for _, c2 := range CallsTo(fn, "keeper.Keeper.updateValidatorShares") {
-					if argT(fa, c2, 4).Name == "true" {
+					if e.sharesDirection(fa, c2) == "true" {
 						if _, vs2 := decCoinOf(argT(fa, c2, 3)); vs2 != nil && vs2.Eq(vs) {
 							witness, what = c2, "the destination validator receives the full amount"
 						}
@@ -189,7 +189,7 @@ func init() {
 			fk, fa := FuncKey(fn), e.FA(fn)
 			var rem ssa.CallInstruction
 			for _, c := range CallsTo(fn, "keeper.Keeper.updateValidatorShares") {
-				if argT(fa, c, 4).Name == "false" {
+				if e.sharesDirection(fa, c) == "false" {
 					rem = c
 				}
 			}
@@ -207,6 +207,52 @@ func init() {
 				}
 			}
 			r.Check(lowersAsset, fk, "dust validator shares leave the asset total too", "asset.TotalValidatorShares lowered by the removed validator shares", "ClearDustDelegation strips a validator's remaining ValidatorShares of the denom when its token value computes to zero, but never subtracts them from asset.TotalValidatorShares: after a full exit whose share amount rounded down the remainder stays in the asset total (hunt: validators sum 39900000.0, asset total 39900000.000000000002) until the staked total returns to zero", r.P(rem))
+		}})
+}
+
+// C03.dustcond: ClearDustDelegation strips ALL remaining validator shares of the denom from a validator.  That is
+// (almost, see F33) harmless only when those shares are worth exactly nothing: the strip must be taken under
+// `TotalTokensWithAsset(validator, asset) == 0` on the untruncated value.  Any wider test (truncated to whole tokens,
+// below a threshold) removes shares that still back value while the asset total keeps counting them.
+func init() {
+	register(&Rule{ID: "C03.dustcond", Props: []string{"C03", "C04"}, Floor: 1,
+		Doc: "a validator's remaining shares are stripped as dust only when their token value is exactly zero",
+		Run: func(e *Engine, r *RuleRun) {
+			fn := r.Need("keeper.Keeper.ClearDustDelegation")
+			if fn == nil {
+				return
+			}
+			fk, fa := FuncKey(fn), e.FA(fn)
+			n := 0
+			for _, c := range CallsTo(fn, "types.AllianceValidator.ReduceShares") {
+				coins := argT(fa, c, 1)
+				if !coins.IsCall("sdk.NewDecCoins") || len(coins.Args) != 1 {
+					continue
+				}
+				el := singleCoin(&Term{Op: "call", Name: "sdk.NewCoins", Args: []*Term{coins.Args[0]}})
+				if el == nil {
+					continue
+				}
+				for _, vc := range fa.ValueCases(el, c) {
+					_, amt := decCoinOf(vc.T)
+					if amt == nil || !amt.IsCall("types.AllianceValidator.ValidatorSharesWithDenom") {
+						continue // the zero coin: nothing stripped
+					}
+					n++
+					exact := false
+					for _, g := range vc.Guards {
+						for _, rel := range relsOf(g) {
+							if rel.Op == "==" && rel.B == "0" && rel.TA != nil && rel.TA.IsCall("types.AllianceValidator.TotalTokensWithAsset") {
+								exact = true
+							}
+						}
+					}
+					r.Check(exact, fk, "validator shares stripped only at token value zero", "under validator.TotalTokensWithAsset(asset).IsZero() on the untruncated value", "the validator's remaining shares of the denom are removed under a test other than `token value == 0` (truncated or thresholded): shares that still back a fraction of a token leave the validator while asset.TotalValidatorShares keeps counting them, so the validators no longer sum to the asset total", r.P(c))
+				}
+			}
+			if n == 0 {
+				r.OK(fk, "validator shares stripped only at token value zero", "ClearDustDelegation strips no validator shares", e.Pos(fn.Pos()))
+			}
 		}})
 }
 
